@@ -178,8 +178,8 @@ func init() {
 					n2 := new(big.Int).Sub(w.bal(u, "rowan"), new(big.Int).Sub(bn, nAmt))
 					e2 := new(big.Int).Sub(w.bal(u, sym), new(big.Int).Sub(be, eAmt))
 					rr := w.app.ClpKeeper.GetPmtpRateParams(w.ctx).PmtpCurrentRunningRate.BigInt()
-					fS := w.app.ClpKeeper.GetSwapFeeRate(w.ctx, *asset("rowan"), false).BigInt()
-					fB := w.app.ClpKeeper.GetSwapFeeRate(w.ctx, *asset(sym), false).BigInt()
+					fS := w.configuredFee("rowan")
+					fB := w.configuredFee(sym)
 					// the round-trip clauses of C04 quantify over ratio-shifting rates in [0,1]: outside that domain the
 					// round trip is still compared with the model, but the clause is not judged (the rounding of the
 					// internal swap amount is amplified by 1+r, beyond the dust the property allows)
